@@ -277,6 +277,36 @@ fn det_inverse_body<T: Sym, const N: usize>(e: i64, reach: bool)
     reach_end(reach);
 }
 
+/// The >= 4x4 arm of `determinant()` (product of the echelon diagonal, sign by the number of row swaps) relies on
+/// a contract of RowEchelonVecMatrix::new / Entry::{pivot_row, clear_col}: the echelon form is reached by
+/// operations of determinant +1 apart from the counted swaps. The 4x4 shapes themselves are out of reach, so the
+/// contract is decided on 2x2 / 3x3 input with the arm's four lines reproduced here and compared with the
+/// cofactor expansion.
+fn echelon_det_body<const N: usize>(e: i64, reach: bool) {
+    let a = sym_mat::<i64, N, N>(e);
+    let m = VecMatrix::from(a);
+    let re = RowEchelonVecMatrix::new(&m);
+    let mut prod: i64 = 1;
+    let mut i = 0;
+    while i < N {
+        prod = prod * re.result[i][i];
+        i += 1;
+    }
+    let det = if re.nr_swaps % 2 == 0 { prod } else { -prod };
+    let want = if N == 1 {
+        a[0][0]
+    } else if N == 2 {
+        a[0][0] * a[1][1] - a[0][1] * a[1][0]
+    } else {
+        a[0][0] * (a[1][1] * a[2 % N][2 % N] - a[1][2 % N] * a[2 % N][1])
+            - a[0][1] * (a[1][0] * a[2 % N][2 % N] - a[1][2 % N] * a[2 % N][0])
+            + a[0][2 % N] * (a[1][0] * a[2 % N][1] - a[1][1] * a[2 % N][0])
+    };
+    assert!(det == want, "C18.vec.echelon_determinant_contract");
+    reach_end(reach);
+    std::mem::forget((m, re));
+}
+
 macro_rules! proofs {
     ($($name:ident => $call:expr;)*) => {$(
         #[cfg_attr(kani, kani::proof)]
@@ -325,7 +355,11 @@ macro_rules! proofs {
 // @harness c18_vec_i64_solve_2x1_e3_reach tier=quick unwind=6 block=128 mem=11 timeout=1309 twin
 // @harness c18_vec_i64_detinv_1_e3_reach tier=thorough unwind=6 block=128 mem=6 timeout=1200 twin
 // @harness c18_vec_z7_rank_2x1_reach tier=quick unwind=8 block=128 mem=6 timeout=1200 twin
+// @harness c18_vec_i64_echdet_2_e1 tier=quick unwind=6 block=128 mem=16 timeout=1800
+// @harness c18_vec_i64_echdet_2_e2 tier=thorough unwind=6 block=128 mem=40 timeout=3600 stretch
 proofs! {
+    c18_vec_i64_echdet_2_e1 => echelon_det_body::<2>(1, false);
+    c18_vec_i64_echdet_2_e2 => echelon_det_body::<2>(2, false);
     c18_vec_i64_rank_2x1_e3_reach => rank_body::<i64, 2, 1>(3, true);
     c18_vec_i64_null_1x2_e3_reach => nullspace_body::<i64, 1, 2>(3, true);
     c18_vec_i64_solve_2x1_e3_reach => solve_body::<i64, 2, 1, 2>(3, true);
